@@ -13,7 +13,7 @@ INFO = {
                "comparison in front of it; every sort is a stable algorithm except sort_unique (ties removed by "
                "dedup); the --sort-by bucket sorter is FIFO within a key, evicts the newest row of the worst key, "
                "mirrors ASC/DESC, and only the sorter adjacent to the limiter gets a capacity; sorters are chained "
-               "in forward option order.",
+               "in forward option order. Ord for NumberValue, evaluated by partial evaluation on all pairs of a universe of representations in the interoperable range, orders by exact value; natural-order sorts are over JSON values (or Option of one) or String keys only, never tuples.",
     "not_decided": "That NumberValue::cmp / total_cmp and the object comparison form a total order on run-time "
                    "values, and that outputs are permutations of inputs.",
     "trusted": ["sa/tables/json_order.toml", "std: slice::sort / sort_by are stable, sort_unstable* are not; "
